@@ -74,6 +74,11 @@ structure Request where
   questions : List Question
   /-- `request.options().case_randomization` -/
   caseRand : Bool
+  /-- a TSIG signer is configured and `should_sign_message` holds (UPDATE / NOTIFY / an AXFR or IXFR
+  question): the request goes out signed and the accepted reply is passed to `verifier.verify`.
+  Datagrams are modelled *unsigned* (the abstraction has no TSIG field; a correctly signed reply is
+  outside the model), so verification of whatever reaches it fails. -/
+  signed : Bool := false
   deriving Repr, Inhabited
 
 inductive SkipWhy where
@@ -81,7 +86,7 @@ inductive SkipWhy where
   deriving DecidableEq, Repr
 
 inductive FailWhy where
-  | io | parse | notResponse | caseMismatch | setup
+  | io | parse | notResponse | caseMismatch | setup | tsig
   deriving DecidableEq, Repr
 
 inductive Step where
@@ -110,6 +115,8 @@ def examineD (rq : Request) (d : Datagram) : Step :=
     let questionMatches := d.questions.all (asked rq)
     if rq.caseRand && questionMatches && !(d.questions.all (askedCase rq)) then .fail .caseMismatch
     else if !questionMatches then .skip .question
+    -- `if let Some(mut verifier) = verifier { return Ok(verifier.verify(response_bytes)?) }`
+    else if rq.signed then .fail .tsig
     else .accept
 
 /-- Decidable class `C16.udp-query-ended-by-undecodable-or-nonresponse-datagram-from-queried-address`:
@@ -126,9 +133,17 @@ def endsCaseMismatch (rq : Request) (d : Datagram) : Bool :=
   sourceOk rq d && d.parses && d.isResponse && decide (rq.id = d.id) && rq.caseRand &&
     d.questions.all (asked rq) && !d.questions.all (askedCase rq)
 
-/-- a non-matching datagram that is not skipped: exactly the two classes above -/
+/-- an (unsigned) reply to a TSIG-signed query that passes every other check: `verifier.verify` fails
+and the error ends the transmission. By the property's four criteria this datagram *matches*; it is
+not one of the known-finding classes. -/
+def endsUnsigned (rq : Request) (d : Datagram) : Bool :=
+  rq.signed && sourceOk rq d && d.parses && d.isResponse && decide (rq.id = d.id) &&
+    d.questions.all (asked rq) && (!rq.caseRand || d.questions.all (askedCase rq))
+
+/-- a datagram that is neither accepted nor skipped: the two known-finding classes, or the unsigned
+reply to a signed query -/
 def endsInsteadOfSkipped (rq : Request) (d : Datagram) : Bool :=
-  endsUndecodable rq d || endsCaseMismatch rq d
+  endsUndecodable rq d || endsCaseMismatch rq d || endsUnsigned rq d
 
 def examine (rq : Request) : Event → Step
   | .ioErr => .fail .io
